@@ -44,6 +44,7 @@ def run(ctx, standalone=True):
         # '... can be carried out, because undo information exists': what was stored must be what the backup consumes,
         # entry for entry (producer / consumer agreement on order, width and cursor)
         ctx.rule('C03.UNDODUAL', lambda: c03.rule_undodual(ctx), 7)
+        ctx.rule('C03.REORGFLUSH', lambda: c03.rule_reorg_flush(ctx), 1)
 
 
 def rule_threshold(ctx):
